@@ -89,6 +89,7 @@ type Job struct {
 	Race     bool   `json:"race"`
 	KeepLog  bool   `json:"keep_log"`
 	MaxViol  int    `json:"max_viol"`
+	RefSigs  bool   `json:"ref_sigs"` // return the per-case digests of the reference observations
 }
 
 type Outcome struct {
@@ -101,6 +102,7 @@ type Outcome struct {
 	Log        []simrt.Event  `json:"log,omitempty"`
 	Adjacent   []uint64       `json:"adjacent,omitempty"`
 	Resolved   *Prog          `json:"resolved,omitempty"` // c12: the program with abort selectors resolved
+	RefSig     uint64         `json:"ref_sig"`            // digest of the reference observations (equal in woven and unwoven builds)
 }
 
 type ViolationReport struct {
@@ -120,6 +122,7 @@ type JobResult struct {
 	Outcomes   []Outcome         `json:"outcomes,omitempty"` // for explicit cases
 	GoidFast   bool              `json:"goid_fast"`
 	NSites     int               `json:"nsites"`
+	RefSigs    []uint64          `json:"ref_sigs,omitempty"`
 }
 
 var workload []GrammarInfo
@@ -286,6 +289,7 @@ func runC06(c Case) (out Outcome) {
 		out.Skipped = "reference exceeds the step budget"
 		return
 	}
+	out.RefSig = uint64(simrt.NewHash().AddString(ref.String()))
 	subCfg := c.Cfg
 	subCfg.NoMemo = false
 	simrt.ArmMemoFaults(c.FaultTape, c.FaultCfg)
@@ -354,6 +358,11 @@ func runC12(c Case) (out Outcome) {
 		st.AbortPredSel, st.AbortActSel = 0, 0
 	}
 	out.Resolved = &p
+	rh := simrt.NewHash()
+	for _, w := range wants {
+		rh = rh.AddString(w.String())
+	}
+	out.RefSig = uint64(rh)
 	var got []Obs
 	_, over := counted(absBudget*uint64(len(p.Steps)), func() { got = runProg(p) })
 	if over {
@@ -452,6 +461,13 @@ func runC14(t *testing.T, c Case, keepLog bool) (out Outcome) {
 			return
 		}
 	}
+	rh := simrt.NewHash()
+	for i := range solo {
+		for _, o := range solo[i] {
+			rh = rh.AddString(o.String())
+		}
+	}
+	out.RefSig = uint64(rh)
 	together := make([][]Obs, len(c.Clients))
 	var res simrt.Result
 	if c.Race {
@@ -559,6 +575,7 @@ func pickCfg(r *simrt.SplitMix64, g *GrammarInfo) simrt.InstCfg {
 	}
 	cfg.Size = []int{0, 0, 1, 7, 1 << 15}[r.Intn(5)]
 	cfg.Pretty = r.Chance(1, 4)
+	cfg.ShareOpts = r.Chance(1, 2)
 	return cfg
 }
 
@@ -667,7 +684,16 @@ func genC14(seed uint64, i int, race bool) Case {
 		if g.Heavy {
 			maxSteps = 1
 		}
-		c.Clients = append(c.Clients, genProg(r, g, 1, maxSteps, false))
+		p := genProg(r, g, 1, maxSteps, false)
+		if j > 0 && r.Chance(1, 2) {
+			for _, q := range c.Clients {
+				if q.Grammar == p.Grammar {
+					p.Cfg = q.Cfg
+					break
+				}
+			}
+		}
+		c.Clients = append(c.Clients, p)
 	}
 	style := r.Intn(simrt.FillStyles)
 	param := []int{1, 2, 4, 12}[r.Intn(4)]
@@ -752,6 +778,9 @@ func TestSim(t *testing.T) {
 			t.Fatalf("unknown mode %q", c.Mode)
 		}
 		res.Runs++
+		if job.RefSigs {
+			res.RefSigs = append(res.RefSigs, o.RefSig)
+		}
 		if o.Skipped != "" {
 			res.Skipped[o.Skipped]++
 			return o
